@@ -126,27 +126,33 @@ def _batches(jobs, size):
     return out
 
 
+BENIGN = {'method': 'POST', 'path': 'valid', 'framing': 'cl_exact', 'coding': 'none', 'xml': 'wf', 'envelope': 'valid'}
+
+
+def _keys(r):
+    """Cover keys of one abstract request.  A pair (request type, envelope class) / (request type, XML class) counts
+    only for a request whose OTHER dimensions are all benign - otherwise the request dies in an earlier stage and the
+    pair was never really exercised."""
+    keys = {(r['via'], f, r[f]) for f in FIELDS} | {('fc', r['framing'], r['coding']), ('mp', r['method'], r['path'])}
+    if all(r[f] == v for f, v in BENIGN.items() if f != 'envelope') and not r.get('lenient'):
+        keys.add(('te', r['via'], r['target'], r['envelope']))
+    if all(r[f] == v for f, v in BENIGN.items() if f != 'xml'):
+        keys.add(('tx', r['target'], r['xml']))
+    return keys
+
+
 def _sample(cases, n, rng):
-    """Stratified sample: every value of every class field, every request type x envelope class, then random."""
+    """Stratified sample: every value of every class field, every request type x envelope class (through both entry
+    points) and x XML class with everything else benign, then random."""
     order = list(range(len(cases)))
     rng.shuffle(order)
     need = set()
     for c in cases:
-        r = c['req']
-        for f in FIELDS:
-            need.add((r['via'], f, r[f]))
-        need.add(('te', r['target'], r['envelope']))
-        need.add(('tx', r['target'], r['xml']))
-        need.add(('fc', r['framing'], r['coding']))
-        need.add(('mp', r['method'], r['path']))
+        need |= _keys(c['req'])
     chosen = []
     rest = []
     for i in order:
-        r = cases[i]['req']
-        keys = {(r['via'], f, r[f]) for f in FIELDS} | {('te', r['target'], r['envelope']),
-                                                      ('tx', r['target'], r['xml']),
-                                                      ('fc', r['framing'], r['coding']),
-                                                      ('mp', r['method'], r['path'])}
+        keys = _keys(cases[i]['req'])
         if keys & need:
             need -= keys
             chosen.append(i)
